@@ -142,9 +142,326 @@ def oracle_tovec(payload):
     return None
 
 
+
+# ---- pipeline scenarios (harness/conc/src/pipe.rs): records `tid:rec@time` -------------------------
+
+def parse_pipe(payload):
+    """-> dict(threads=(exits, spawns), recs=[(tid, rec, time)], final=str)"""
+    m = re.match(r"threads=(\d+)/(\d+) ; (.*)$", payload)
+    if not m:
+        return None
+    body = m.group(3)
+    final = ""
+    if "0:ENDALL@" in body:
+        # what happens after the harness ended all remaining subscriptions is not part of the scenario proper
+        j = body.index("0:ENDALL@")
+        k = body.index("0:FINAL") if "0:FINAL" in body else len(body)
+        body = body[:j] + body[k:]
+    if " 0:FINAL" in body or body.startswith("0:FINAL"):
+        i = body.index("0:FINAL")
+        final = body[i + len("0:FINAL"):].strip()
+        body = body[:i]
+    recs = []
+    for tok in body.split():
+        mm = re.match(r"(\d+):(.*)@(\d+)$", tok)
+        if mm:
+            recs.append((int(mm.group(1)), mm.group(2), int(mm.group(3))))
+    return dict(threads=(int(m.group(1)), int(m.group(2))), recs=recs, final=final)
+
+
+def user_events(recs, s=0):
+    return [(tid, r[len("s%d:" % s):], t) for tid, r, t in recs if r.startswith("s%d:" % s)]
+
+
+def check_contract(evs):
+    kinds = [e[1][0] for e in evs]
+    for i, k in enumerate(kinds):
+        if k in "ec" and i != len(kinds) - 1:
+            return "event after the terminal: " + " ".join(e[1] for e in evs)
+    return None
+
+
+def check_no_overlap(recs, s=0):
+    inside = None
+    for tid, r, t in recs:
+        if r.startswith("s%d:" % s):
+            if inside is not None and inside != tid:
+                return "two callbacks of subscriber %d at once (threads %d and %d)" % (s, inside, tid)
+            inside = tid
+        elif r == "r%d" % s:
+            inside = None
+    return None
+
+
+def expected_events(pipe_text, jobs=1):
+    """what a sequential, single-threaded run of the same pipeline delivers (Lean model A)"""
+    line = "(case x (sub %s (react)))" % pipe_text
+    out = run.run_model([line], 1)[0]
+    return re.findall(r"\bs0:(\S+)", out)
+
+
+def strip_threading(p):
+    """the same pipeline with observe_on / subscribe_on removed and tsrc turned into a cold script"""
+    p = re.sub(r"\((observe_on|subscribe_on) ", "(defer ", p)
+    def ts(m):
+        evs = re.findall(r"\(\d+ (\(n [^)]*\)|\(e \d+\)|c)\)", m.group(0))
+        return "(cold %s %s)" % (m.group(1), " ".join(evs))
+    p = re.sub(r"\(tsrc (\d+)((?: \(\d+ (?:\(n [^)]*\)|\(e \d+\)|c)\))*)\)", ts, p)
+    return p
+
+
+def scen_handoff(rng, n):
+    out = []
+    srcs = ["(from_iter 1 2 3)", "(from_iter)", "(just 7)", "(error 5)", "(cold 0 (n 1) (n 2) (e 6))", "(range 0 4)",
+            "(tsrc 0 (0 (n 1)) (0 (n 2)) (0 c))", "(tsrc 0 (0 (n 1)) (0 (e 5)))", "(tsrc 0 (0 (n 1)) (0 (n 2)) (0 (n 3)))"]
+    wraps = ["(observe_on %s)", "(subscribe_on %s)", "(observe_on (observe_on %s))", "(map inc (observe_on (filter (gt 0) %s)))",
+             "(observe_on (map dbl %s))", "(take 2 (observe_on %s))", "(observe_on (take 2 %s))", "(subscribe_on (observe_on %s))",
+             "(observe_on (subscribe_on %s))", "(skip 1 (observe_on %s))", "(observe_on (scan add %s))", "(last (observe_on %s))"]
+    i = 0
+    for w in wraps:
+        for sc in srcs:
+            out.append(("(conc C09-%d (pipe (sub %s (react))))" % (i, w % sc), w % sc)); i += 1
+    # with a concurrent unsubscriber
+    for w in wraps[:4]:
+        for sc in ("(tsrc 0 (0 (n 1)) (0 (n 2)) (0 (n 3)) (0 c))", "(from_iter 1 2 3 4)"):
+            out.append(("(conc C09-%d (pipe (sub %s (react)) (unsub-after 0 0)))" % (i, w % sc), None)); i += 1
+    return out
+
+
+def oracle_handoff(payload, pipe_text):
+    d = parse_pipe(payload)
+    if d is None:
+        return "malformed record"
+    evs = user_events(d["recs"])
+    m = check_contract(evs) or check_no_overlap(d["recs"])
+    if m:
+        return m
+    tids = {e[0] for e in evs}
+    if len(tids) > 1:
+        return "callbacks delivered on more than one thread: %s" % sorted(tids)
+    src_tids = {tid for tid, r, t in d["recs"] if re.match(r"x\d+[!.]", r)}
+    outer_observe = pipe_text is not None and re.match(r"\((map inc |take 2 |skip 1 |last )?\(observe_on", pipe_text)
+    if evs and 0 in tids:
+        return "callback delivered on the subscribing thread"
+    if evs and outer_observe and (tids & src_tids):
+        return "callback delivered on the emitting thread"
+    if pipe_text is not None and pipe_text.startswith("(subscribe_on"):
+        subs = [tid for tid, r, t in d["recs"] if re.match(r"[xp]\d+\+", r)]
+        if 0 in subs:
+            return "subscribe_on subscribed the source on the caller's thread"
+    if d["threads"][0] != d["threads"][1]:
+        return "a worker thread did not exit (%d of %d)" % d["threads"]
+    got = [e[1] for e in evs]
+    if pipe_text is not None:
+        want = expected_events(strip_threading(pipe_text))
+        if got != want:
+            return "delivered %s, the source emitted %s" % (" ".join(got), " ".join(want))
+    else:
+        # unsubscribed concurrently: a prefix of the emitted sequence; nothing for a call started after unsubscribe returned
+        urets = [i for i, (tid, r, t) in enumerate(d["recs"]) if r == "u0."]
+        if urets:
+            u = urets[0]
+            started_after = sum(1 for i, (tid, r, t) in enumerate(d["recs"]) if i > u and re.match(r"x\d+!", r))
+            total_calls = sum(1 for (tid, r, t) in d["recs"] if re.match(r"x\d+!", r))
+            if started_after and len(evs) > total_calls - started_after:
+                return "an event the source started to emit after unsubscribe returned was delivered"
+    return None
+
+
+def scen_merge(rng, n):
+    out = []
+    i = 0
+    def ts(k, items, end="c"):
+        evs = " ".join("(0 (n %d))" % v for v in items) + (" (0 c)" if end == "c" else "")
+        return "(tsrc %d %s)" % (k, evs)
+    shapes = [
+        ("merge", [[1, 2], [11, 12]]), ("merge", [[1, 2, 3], [11], [21, 22]]), ("merge", [[1], [11], [21]]),
+        ("concat", [[1, 2], [11, 12]]), ("zip", [[1, 2], [11, 12]]), ("zip", [[1, 2, 3], [11, 12]]), ("amb", [[1, 2], [11, 12]]),
+        ("amb", [[1], [11], [21]]),
+    ]
+    for op, lists in shapes:
+        p = "(%s %s)" % (op, " ".join(ts(k, l) for k, l in enumerate(lists)))
+        out.append(("(conc C11-%d (pipe (sub %s (react))))" % (i, p), (op, lists, None))); i += 1
+        for tk in (1, 2, 3):
+            out.append(("(conc C11-%d (pipe (sub (take %d %s) (react))))" % (i, tk, p), (op, lists, tk))); i += 1
+    # flat_map over hot inner sources driven by threads
+    out.append(("(conc C11-%d (pipe (subject a plain) (subject b plain) (subject s plain) (sub (flat_map (fm_ref a b) (ref s)) (react)) "
+                "(hnext s 0) (hnext s 1) (drive a (0 (n 1)) (0 (n 2)) (0 c)) (drive b (0 (n 11)) (0 (n 12)) (0 c)) (drive s (0 c))))" % i,
+                ("merge", [[1, 2], [11, 12]], None))); i += 1
+    return out
+
+
+def oracle_merge(payload, info):
+    op, lists, tk = info
+    d = parse_pipe(payload)
+    if d is None:
+        return "malformed record"
+    evs = user_events(d["recs"])
+    m = check_contract(evs)
+    if m:
+        return m
+    items = [e[1][1:] for e in evs if e[1][0] == "n"]
+    terms = [e[1] for e in evs if e[1][0] != "n"]
+    if len(terms) > 1:
+        return "more than one terminal"
+    if tk is not None:
+        if len(items) > tk:
+            return "take(%d) delivered %d items" % (tk, len(items))
+        return None
+    if op in ("merge", "concat"):
+        flat = sorted(str(v) for l in lists for v in l)
+        if sorted(items) != flat:
+            return "%s delivered %s, inputs emitted %s" % (op, items, flat)
+        for l in lists:
+            sub = [x for x in items if x in [str(v) for v in l]]
+            if sub != [str(v) for v in l]:
+                return "items of one input were reordered: %s" % sub
+        if op == "concat":
+            want = [str(v) for l in lists for v in l]
+            if items != want:
+                return "concat interleaved its inputs: %s" % items
+        if terms != ["c"]:
+            return "%s did not complete exactly once after the last item: %s" % (op, terms)
+    elif op == "zip":
+        n = min(len(l) for l in lists)
+        want = sorted("[%s]" % ",".join(str(l[i]) for l in lists) for i in range(n))
+        if sorted(items) != want:
+            return "zip delivered %s, expected the tuples %s" % (items, want)
+    elif op == "amb":
+        owners = set()
+        for x in items:
+            for k, l in enumerate(lists):
+                if x in [str(v) for v in l]:
+                    owners.add(k)
+        if len(owners) > 1:
+            return "amb let more than one input through: %s" % items
+        if owners:
+            k = owners.pop()
+            if items != [str(v) for v in lists[k]] or terms != ["c"]:
+                return "amb did not mirror its winner: %s %s" % (items, terms)
+    if d["threads"][0] != d["threads"][1]:
+        return "a thread did not finish (%d of %d)" % d["threads"]
+    return None
+
+
+def scen_threads(rng, n):
+    """thread-creating operators x terminating causes (C15)"""
+    out = []
+    i = 0
+    makers = ["(interval 10)", "(timer 15)", "(observe_on (interval 10))", "(subscribe_on (from_iter 1 2 3 4 5 6))", "(observe_on (from_iter 1 2 3 4 5 6))",
+              "(debounce 10 (tsrc 0 (3 (n 1)) (3 (n 2)) (30 (n 3)) (5 c)))", "(timeout 20 (tsrc 0 (5 (n 1)) (5 (n 2)) (5 c)))",
+              "(timeout 20 (tsrc 0 (5 (n 1)) (50 (n 2))))", "(delay 5 (tsrc 0 (1 (n 1)) (1 (n 2)) (1 c)))",
+              "(observe_on (observe_on (interval 10)))", "(merge (interval 10) (interval 15))", "(timeout 30 (interval 10))"]
+    enders = ["(take 2 %s)", "(first %s)", "(take_until %s (timer 25))", "(amb %s (timer 12))", "(take_while (lt 2) %s)", "(take 3 (map inc %s))"]
+    for mk in makers:
+        for en in enders:
+            out.append(("(conc C15-%d (pipe (sub %s (react))))" % (i, en % mk), None)); i += 1
+        out.append(("(conc C15-%d (pipe (sub %s (react)) (unsub-after 0 37)))" % (i, mk), None)); i += 1
+        out.append(("(conc C15-%d (pipe (sub %s (react)) (unsub-after 0 0)))" % (i, mk), None)); i += 1
+    # error / completion as the cause, repeated create-and-finish rounds
+    out.append(("(conc C15-%d (pipe (sub (observe_on (error 5)) (react)) (sub (observe_on (empty)) (react)) (sub (take 1 (interval 5)) (react)) (settle 50) (sub (take 1 (interval 5)) (react))))" % i, None)); i += 1
+    out.append(("(conc C15-%d (pipe (sub (retry 2 (observe_on (cold 0 (n 1) (e 5)))) (react))))" % i, None)); i += 1
+    return out
+
+
+def oracle_threads(payload, info):
+    d = parse_pipe(payload)
+    if d is None:
+        return "malformed record"
+    evs = user_events(d["recs"])
+    m = check_contract(evs)
+    if m:
+        return m
+    if d["threads"][0] != d["threads"][1]:
+        return "%d of %d threads started for the subscription never exited" % (d["threads"][1] - d["threads"][0], d["threads"][1])
+    return None
+
+
+def scen_time(rng, n):
+    out = []
+    i = 0
+    for d in (5, 10):
+        out.append(("(conc C16-%d (pipe (sub (interval %d) (react)) (unsub-after 0 %d)))" % (i, d, 3 * d + d // 2), ("interval", d, 3))); i += 1
+        out.append(("(conc C16-%d (pipe (sub (take 4 (interval %d)) (react))))" % (i, d), ("interval", d, 4))); i += 1
+        out.append(("(conc C16-%d (pipe (sub (timer %d) (react))))" % (i, d), ("timer", d))); i += 1
+    # timeout: gaps above / below d
+    for gaps, d in (([5, 5, 5], 20), ([5, 30], 20), ([5, 5, 30, 5], 20), ([25], 20), ([5, 19, 21], 20)):
+        evs = " ".join("(%d (n %d))" % (gp, k + 1) for k, gp in enumerate(gaps))
+        out.append(("(conc C16-%d (pipe (sub (timeout %d (tsrc 0 %s (3 c))) (react))))" % (i, d, evs), ("timeout", d, gaps, True))); i += 1
+        out.append(("(conc C16-%d (pipe (sub (timeout %d (tsrc 0 %s)) (react))))" % (i, d, evs), ("timeout", d, gaps, False))); i += 1
+    # delay: each item handed on d after it was received, order kept
+    out.append(("(conc C16-%d (pipe (sub (delay 7 (tsrc 0 (10 (n 1)) (10 (n 2)) (10 (n 3)) (1 c))) (react))))" % i, ("delay", 7, [10, 10, 10]))); i += 1
+    # debounce / sample: only items the source emitted, in order, none twice
+    out.append(("(conc C16-%d (pipe (sub (debounce 10 (tsrc 0 (3 (n 1)) (3 (n 2)) (25 (n 3)) (3 (n 4)) (30 c))) (react))))" % i, ("subseq", [1, 2, 3, 4]))); i += 1
+    out.append(("(conc C16-%d (pipe (sub (sample (tsrc 0 (3 (n 1)) (3 (n 2)) (25 (n 3)) (3 (n 4)) (30 c)) (interval 10)) (react)) (unsub-after 0 90)))" % i, ("subseq", [1, 2, 3, 4]))); i += 1
+    return out
+
+
+def oracle_time(payload, info):
+    d = parse_pipe(payload)
+    if d is None:
+        return "malformed record"
+    evs = user_events(d["recs"])
+    m = check_contract(evs)
+    if m:
+        return m
+    kind = info[0]
+    got = [(e[1], e[2]) for e in evs]
+    if kind == "interval":
+        per, k = info[1], info[2]
+        want = [("n%d" % j, (j + 1) * per) for j in range(k)]
+        items = [g for g in got if g[0][0] == "n"]
+        if items != want:
+            return "interval(%d) delivered %s, expected %s" % (per, items, want)
+    elif kind == "timer":
+        per = info[1]
+        if got != [("nu", per), ("c", per)]:
+            return "timer(%d) delivered %s" % (per, got)
+    elif kind == "timeout":
+        dd, gaps, completes = info[1], info[2], info[3]
+        t = 0
+        want = []
+        timed_out = False
+        for k, gp in enumerate(gaps):
+            if k > 0 and gp > dd:
+                want.append(("e?", t + dd)); timed_out = True
+                break
+            t += gp
+            want.append(("n%d" % (k + 1), t))
+        if not timed_out:
+            if completes and 3 <= dd:
+                want.append(("c", t + 3))
+            elif not completes:
+                want.append(("e?", t + dd))
+        if got != want:
+            return "timeout(%d) over gaps %s delivered %s, expected %s" % (dd, gaps, got, want)
+    elif kind == "delay":
+        dd, gaps = info[1], info[2]
+        items = [g[0] for g in got if g[0][0] == "n"]
+        if items != ["n%d" % (k + 1) for k in range(len(gaps))]:
+            return "delay reordered or lost items: %s" % items
+    elif kind == "subseq":
+        src = ["n%d" % v for v in info[1]]
+        items = [g[0] for g in got if g[0][0] == "n"]
+        j = 0
+        for x in items:
+            while j < len(src) and src[j] != x:
+                j += 1
+            if j == len(src):
+                return "delivered %s which is not a subsequence of the source's items (duplicate or foreign item)" % items
+            j += 1
+    if d["threads"][0] != d["threads"][1]:
+        return "a thread did not exit (%d of %d)" % d["threads"]
+    return None
+
+
 CONC = {
     "C19": dict(model="obs", scen=scen_obs, oracle=oracle_obs, corr="Conc.Observer (lean/RxVerif/Conc/Observer.lean) vs src/observer.rs + src/internals/function_wrapper.rs"),
     "C18": dict(model="tovec", scen=scen_tovec, oracle=oracle_tovec, corr="Conc.ToVec (lean/RxVerif/Conc/ToVec.lean) vs src/operators/to_vec.rs"),
+    "C09": dict(model=None, scen=scen_handoff, oracle=oracle_handoff, corr="Conc.Handoff vs src/operators/observe_on.rs, subscribe_on.rs", info=True),
+    "C11": dict(model=None, scen=scen_merge, oracle=oracle_merge, corr="Conc.Sctl / Conc.TakeAmbZip vs stream_controller.rs, merge/zip/amb/take", info=True),
+    "C15": dict(model=None, scen=scen_threads, oracle=oracle_threads, corr="Conc.Timed / Conc.Queue vs scheduler-based operators", info=True),
+    "C16": dict(model=None, scen=scen_time, oracle=oracle_time, corr="Conc.Timed vs interval/timer/delay/timeout/debounce/sample", info=True),
 }
 
 
@@ -169,7 +486,11 @@ def run_conc(prop, tier, seed, jobs, write_evidence, write_replay, load_known):
     rng = random.Random(seed * 7919 + int(prop[1:]))
     thorough = tier == "thorough"
     scen = cfg["scen"](rng, 60 if thorough else 12)
-    iters = 5000 if thorough else 300
+    info = {}
+    if cfg.get("info"):
+        info = {x[0].split()[1]: x[1] for x in scen}
+        scen = [x[0] for x in scen]
+    iters = (5000 if thorough else 300) if cfg.get("model") else (1500 if thorough else 120)
     lines = run_scenarios(scen, seed, iters, "mixed", jobs)
     execs = [l for l in lines if l.count(" | ") >= 3]
     done = [l for l in lines if " | done " in l]
@@ -183,7 +504,7 @@ def run_conc(prop, tier, seed, jobs, write_evidence, write_replay, load_known):
         if status != "ok":
             bad_status.append((l, "execution ended with %s %s" % (status, detail)))
             continue
-        msg = cfg["oracle"](payload)
+        msg = cfg["oracle"](payload, info.get(sid)) if cfg.get("info") else cfg["oracle"](payload)
         if msg:
             oracle_fail.append((l, msg))
         c = co.get(l, "")
